@@ -213,7 +213,8 @@ pub fn drive_corpus(corpus: &str, seed: u64, thorough: bool, w: &mut NdWriter) -
   let mut rng = Rng::new(seed ^ 0xC02);
   let per_file_cut = if thorough { 60 } else { 10 };
   let per_file_near = if thorough { 40 } else { 6 };
-  let (mut n_cut, mut n_near, mut n_self) = (0, 0, 0);
+  let per_file_broken = if thorough { 40 } else { 8 };
+  let (mut n_cut, mut n_near, mut n_self, mut n_broken) = (0, 0, 0, 0);
   let mut langs = std::collections::BTreeSet::new();
   for (l, path, text) in util::corpus(corpus) {
     let g = l.ast_grep(&text);
@@ -262,8 +263,37 @@ pub fn drive_corpus(corpus: &str, seed: u64, thorough: bool, w: &mut NdWriter) -
         }
       }
     }
+    // (d) damaged sources: the pattern is cut from the intact site, the candidates come from the same text with
+    // one anonymous token blanked out, so the tree has ERROR / MISSING nodes where the pattern has tokens
+    for i in 0..per_file_broken {
+      let site = rng.pick(&sites).clone();
+      let text = site.text().to_string();
+      let pat = if i % 2 == 0 { text.clone() } else { match cut(&site, &mut rng, false) { Some((p, _, _)) => p, None => continue } };
+      let base = site.range().start;
+      let toks: Vec<std::ops::Range<usize>> = site.dfs().filter(|n| !n.is_named() && n.is_leaf() && !n.range().is_empty()).map(|n| n.range()).collect();
+      if toks.is_empty() {
+        continue;
+      }
+      let t = rng.pick(&toks).clone();
+      let mut damaged = String::new();
+      damaged.push_str(&text[..t.start - base]);
+      damaged.push_str(&" ".repeat(t.len()));
+      damaged.push_str(&text[t.end - base..]);
+      let g2 = l.ast_grep(&damaged);
+      let root = g2.root();
+      if !mrec::has_error_or_missing(&root.get_ts_node()) {
+        continue;
+      }
+      let cands: Vec<N> = root.dfs().filter(|n| n.kind_id() == site.kind_id() && n.dfs().count() <= 90).take(3).collect();
+      for (k, c) in cands.iter().enumerate() {
+        if let Some(r) = match_record(&format!("{path}#broken{i}.{k}"), l, &pat, c, json!({"mode": "near"})) {
+          w.put(&r);
+          n_broken += 1;
+        }
+      }
+    }
   }
-  json!({"corpus_cut": n_cut, "corpus_self": n_self, "corpus_near": n_near, "languages": langs})
+  json!({"corpus_cut": n_cut, "corpus_self": n_self, "corpus_near": n_near, "corpus_broken": n_broken, "languages": langs})
 }
 
 pub fn drive(prop: &str, vectors: Option<&str>, vectors2: Option<&str>, corpus: &str, seed: u64, out: &str, thorough: bool) {
